@@ -25,6 +25,7 @@ type C12Scenario struct {
 	Knobs hx.SimKnobs `json:"knobs"`
 	Kind  string      `json:"kind"`
 	Cap   int         `json:"cap"`
+	Ctrl  int         `json:"ctrl_cap"` // pipe/mq: capacity of the control list (-1: option not given = unbounded); other kinds ignore it
 	Tasks [][]qOp     `json:"tasks"`
 }
 
@@ -88,7 +89,13 @@ func front(l []int, v int) []int { return append([]int{v}, l...) }
 func back(l []int, v int) []int  { return append(append([]int{}, l...), v) }
 
 // qModel returns the porcupine model of one queue kind with capacity capN.
-func qModel(kind string, capN int) porcupine.Model {
+func qModel(kind string, capN int, ctrlCap int) porcupine.Model {
+	if ctrlCap < 0 {
+		ctrlCap = 0
+	}
+	if capN < 0 {
+		capN = 0
+	}
 	step := func(st interface{}, in interface{}, out interface{}) (bool, interface{}) {
 		s := dec(st.(string))
 		i := in.(qIn)
@@ -137,7 +144,7 @@ func qModel(kind string, capN int) porcupine.Model {
 			if s.closed {
 				return o.Code == Closed, st
 			}
-			if capN > 0 && len(s.ctrl) >= capN {
+			if ctrlCap > 0 && len(s.ctrl) >= ctrlCap {
 				return false, st
 			}
 			s.ctrl = back(s.ctrl, i.V)
@@ -152,7 +159,7 @@ func qModel(kind string, capN int) porcupine.Model {
 			if s.closed {
 				return o.Code == Closed, st
 			}
-			if capN > 0 && len(s.ctrl) >= capN {
+			if ctrlCap > 0 && len(s.ctrl) >= ctrlCap {
 				return o.Code == Full, st
 			}
 			s.ctrl = back(s.ctrl, i.V)
@@ -262,6 +269,12 @@ func drawC12(rt *rapid.T) interface{} {
 	if sc.Kind == KSyncQ {
 		sc.Cap = 0 // the sync queue is unbounded
 	}
+	sc.Ctrl = sc.Cap
+	if sc.Kind == KMQ {
+		// the two limits are separate options; either may be left out
+		sc.Cap = rapid.SampledFrom([]int{-1, 0, 1, 2, 3}).Draw(rt, "reqcap")
+		sc.Ctrl = rapid.SampledFrom([]int{-1, 0, 1, 2, 3}).Draw(rt, "ctrlcap")
+	}
 	var choices []string
 	switch sc.Kind {
 	case KSyncQ:
@@ -338,7 +351,7 @@ func runC12(t *testing.T, sci interface{}, keepLog bool) *hx.Outcome {
 	sc := sci.(*C12Scenario)
 	h := &hx.History{}
 	main := func(s *simrt.Sim) {
-		q := NewQueue(sc.Kind, sc.Cap)
+		q := NewQueue2(sc.Kind, sc.Cap, sc.Ctrl)
 		var ts []*simrt.Task
 		for ti, ops := range sc.Tasks {
 			ti, ops := ti, ops
@@ -416,7 +429,7 @@ func runC12(t *testing.T, sci interface{}, keepLog bool) *hx.Outcome {
 		o.Nontrivial = len(sc.Tasks[0]) >= 3
 	}
 	if o.Class == "" {
-		switch hx.CheckLin(qModel(sc.Kind, sc.Cap), h, 10*time.Second) {
+		switch hx.CheckLin(qModel(sc.Kind, sc.Cap, sc.Ctrl), h, 10*time.Second) {
 		case "illegal":
 			o.Class = "history-not-linearizable"
 			o.Msg = fmt.Sprintf("%s cap=%d: no sequential order of the recorded operations is explained by the queue model", sc.Kind, sc.Cap)
